@@ -1,13 +1,19 @@
 import Toq.Model.ChannelProps
 import Toq.Spec.ChannelProps
 import Toq.Proofs.ChannelProps
+import Toq.Proofs.ChannelPropsExtremal
+import Toq.Proofs.ChannelPropsTol
+import Toq.Proofs.ChannelPropsRanges
+import Mathlib.Analysis.Convex.Extreme
+import Mathlib.LinearAlgebra.Complex.Module
 /-!
 # C06 — channel predicates decide by definition; built-in channels are what they claim
 
 Property theorems only (helper lemmas: `Toq/Proofs/ChannelProps.lean`).  Vocabulary: `Toq/Spec/ChannelProps.lean`
 (maps `Φ : M_{di}(ℂ) → M_{dO}(ℂ)`, Choi matrix `J(Φ) = Σ_ij E_ij ⊗ Φ(E_ij)` over `Fin di × Fin dO`, the textbook
 definitions `IsTP`, `IsUnital`, `IsHP`, `IsPositive`, `IsCP` (all amplifications positive), `HasKraus`,
-`IsUnitaryChannel`); executable deciders and closed-form channel models: `Toq/Model/ChannelProps.lean`.
+`IsUnitaryChannel`, `IsExtremeChannel`); executable deciders and closed-form channel models: `Toq/Model/ChannelProps.lean`,
+`Toq/Model/ChannelPropsTol.lean` (tolerance arithmetic).
 
 1. **Characterisations** — the tests toqito's predicates perform are equivalent to the definitions:
    `tp_iff_ptrace_choi`, `unital_iff_ptrace_choi`, `hp_iff_choi_hermitian`, Choi's theorem `cp_iff_choi_psd`
@@ -26,13 +32,27 @@ definitions `IsTP`, `IsUnital`, `IsHP`, `IsPositive`, `IsCP` (all amplifications
    formulas), `amplitude_damping_model_apply`, `pauliChoi_eq`; and the one-sided positivity test:
    `positive_of_choi_psd`, `not_positive_of_product_witness`.
 
-Extremality (Choi's criterion) is cited, not proved; `extremalDecide` evaluates it exactly on a basis of
-`span{K_i}`.  The exact rank (`rankQ`, Gaussian elimination over `ℚ[i]`, the shared routine of `Toq/Core/Rank.lean`) is
-proved correct: `rankQ_eq_rank` (= Mathlib's `Matrix.rank` of the denoted complex matrix), `choiRank_exact` (the rank the
-driver reports is the rank of the Choi matrix), `pivotCols_length` / `pivotCols_linearIndependent` (the columns
-`extremalDecide` reads its basis from are `rank J` independent columns), `rankQ_eq_rows_iff` (the final test
-`rank == r²` of both extremality procedures decides linear independence of the `r²` rows);
-`choiRank_le_kraus` bounds the Choi rank by the number of Kraus operators.
+5. **Extremality** — Choi's theorem is proved, nothing is cited: `extreme_iff_kraus_products_independent` (a channel with
+   linearly independent Kraus operators is an extreme point of the convex set of channels iff the products `K_kᴴ K_l` are
+   linearly independent), its basis form `extreme_iff_basis_products_independent`, `extreme_of_products_independent`,
+   `unitary_channel_extreme`, `channels_convex`, `isExtremeChannel_iff_choi`, `isExtremeChannel_iff_mem_extremePoints` (the notion is
+   Mathlib's `Set.extremePoints`); and the two executable procedures: `extremalDecide_correct` / `report_extremal_correct` (the
+   decider of the driver answers `true` exactly for extreme channels), `extremalAsCoded_correct` (the procedure of `is_extremal` is
+   right on independent Kraus lists) and `extremalAsCoded_dependent` (it answers `false` on every dependent list — the known finding).
+6. **Exact rank** — `rankQ` (Gaussian elimination over `ℚ[i]`, the shared routine of `Toq/Core/Rank.lean`) is proved correct:
+   `rankQ_eq_rank` (= Mathlib's `Matrix.rank` of the denoted complex matrix), `choiRank_exact`, `pivotCols_length` /
+   `pivotCols_linearIndependent`, `rankQ_eq_rows_iff`; `choiRank_le_kraus` bounds the Choi rank by the number of Kraus operators.
+7. **Parameter ranges** — `depolarizing_cp_iff` (`-1/(d²-1) ≤ p ≤ 1`), `dephasing_cp_iff` (`-1/(d-1) ≤ p ≤ 1`),
+   `depolarizing_not_cp_of_gt_one`, `dephasing_not_cp_of_gt_one`; Pauli channels in all forms: `pauliString_hermitian`,
+   `pauliChoi_eq_choi_kraus`, `pauli_channel_channel`; `phase_damping_model_apply`, `bitflip_model_apply`.
+   Qubit constructors over the whole documented range with real square roots: `amplitude_damping_channel`, `phase_damping_channel`,
+   `bitflip_channel`; guards: `adGuard_ok_iff`, `pdGuard_ok_iff`, `bfGuard_ok_iff`, `pauliGuard_ok_imp`; `amplitude_damping_extreme`,
+   `amplitude_damping_standard_eq_pair`, `amplitude_damping_list_answered_false` (the known finding for every damping amplitude).
+   Unitarity verdict end to end: `unitaryV_yes_sound`, `unitaryV_no_sound`, `unitary_choi_rank_trace`.
+8. **Tolerances** — the exact mirror of `np.allclose` (`allclose_mirror`, `tpClose_iff`, `unitalClose_iff`, `hpClose_iff`,
+   `tpPairsClose_iff`, `sumAdjMul_denotes`, `tpPairs_correct`), the margin of the three-valued verdicts against it
+   (`eqV_yes_imp_allclose`, `eqV_no_imp_not_allclose`, `verdicts_agree_with_default_tolerances`), and the eigenvalue test of
+   `is_positive_semidefinite` (`psd_shift_iff_eigenvalues`, `psdTolV_yes_imp`, `psdTolV_no_imp`).
 -/
 
 section Characterisations
@@ -1222,3 +1242,935 @@ example : rankQ 2 2 #[#[⟨1, 0⟩, ⟨0, 1⟩], #[⟨0, 1⟩, ⟨-1, 0⟩]] = 1
 
 end Toq.C06
 end ExactRank
+
+/-! ## Choi's theorem on the extreme points of the set of channels; the extremality deciders -/
+section Extremality
+open Toq.ChannelProps Toq.ChanPropSpec Toq.ChanPropProofs Toq.Rank Matrix
+open scoped ComplexOrder
+namespace Toq.C06
+variable {di dO r : Nat}
+
+/-- The Choi matrix depends linearly on the map. -/
+theorem choi_linear (a b : ℂ) (Φ Ψ : LMap di dO) : choi (a • Φ + b • Ψ) = a • choi Φ + b • choi Ψ := rfl
+
+/-- A map is a channel (completely positive — every amplification positive — and trace preserving) iff its Choi matrix is
+    positive semidefinite with `Tr_out J = 1`. -/
+theorem isChannel_iff_choi (Φ : LMap di dO) : IsChannel Φ ↔ IsChoiChannel (choi Φ) := by
+  unfold IsChannel IsChoiChannel
+  rw [cp_iff_choi_psd, tp_iff_ptrace_choi]
+
+/-- The channels form a convex set. -/
+theorem channels_convex (Φ₀ Φ₁ : LMap di dO) (h0 : IsChannel Φ₀) (h1 : IsChannel Φ₁) (t : ℝ) (ht0 : 0 ≤ t) (ht1 : t ≤ 1) :
+    IsChannel ((t : ℂ) • Φ₀ + ((1 - t : ℝ) : ℂ) • Φ₁) := by
+  rw [isChannel_iff_choi] at h0 h1 ⊢
+  rw [choi_linear]
+  refine ⟨(h0.1.smul (Complex.zero_le_real.mpr ht0)).add (h1.1.smul (Complex.zero_le_real.mpr (sub_nonneg.mpr ht1))), ?_⟩
+  have hlin : ∀ (a b : ℂ) (A B : TMat di dO), Toq.ChanPropSpec.ptraceOut (a • A + b • B)
+      = a • Toq.ChanPropSpec.ptraceOut A + b • Toq.ChanPropSpec.ptraceOut B := by
+    intro a b A B
+    ext i j
+    simp only [Toq.ChanPropSpec.ptraceOut, Matrix.add_apply, Matrix.smul_apply, smul_eq_mul, Finset.sum_add_distrib,
+      Finset.mul_sum]
+  rw [hlin, h0.2, h1.2, ← add_smul]
+  push_cast
+  rw [add_sub_cancel, one_smul]
+
+/-- A map is an extreme point of the convex set of channels iff its Choi matrix is an extreme point of the convex set of
+    Choi matrices of channels (positive semidefinite, `Tr_out J = 1`). -/
+theorem isExtremeChannel_iff_choi (Φ : LMap di dO) : IsExtremeChannel Φ ↔ IsChoiExtreme (choi Φ) := by
+  unfold IsExtremeChannel IsChoiExtreme
+  rw [isChannel_iff_choi]
+  refine and_congr_right fun _ => ⟨fun h J₀ J₁ t h0 h1 ht0 ht1 hc => ?_, fun h Φ₀ Φ₁ t h0 h1 ht0 ht1 hc => ?_⟩
+  · have := h (ofChoi J₀) (ofChoi J₁) t (by rw [isChannel_iff_choi, choi_ofChoi]; exact h0)
+      (by rw [isChannel_iff_choi, choi_ofChoi]; exact h1) ht0 ht1
+      (choi_injective (by rw [choi_linear, choi_ofChoi, choi_ofChoi]; exact hc))
+    constructor
+    · rw [← this.1, choi_ofChoi]
+    · rw [← this.2, choi_ofChoi]
+  · have := h (choi Φ₀) (choi Φ₁) t ((isChannel_iff_choi Φ₀).mp h0) ((isChannel_iff_choi Φ₁).mp h1) ht0 ht1
+      (by rw [hc, choi_linear])
+    exact ⟨choi_injective this.1, choi_injective this.2⟩
+
+/-- **Choi's theorem on extreme channels, basis form.**  Let `Φ` be a channel and `W_1 … W_r` linearly independent operators
+    whose column-stacking vectors lie in the column space of the Choi matrix, `r` = the Choi rank (so they form a basis of the
+    span of the Kraus operators of `Φ`).  Then `Φ` is an extreme point of the set of channels iff the `r²` operators
+    `W_kᴴ W_l` are linearly independent. -/
+theorem extreme_iff_basis_products_independent (Φ : LMap di dO) (hΦ : IsChannel Φ) (W : Fin r → Matrix (Fin dO) (Fin di) ℂ)
+    (hLI : LinearIndependent ℂ W) (hcol : ∀ k, ∃ c, kvec (W k) = choi Φ *ᵥ c) (hr : (choi Φ).rank = r) :
+    IsExtremeChannel Φ ↔ LinearIndependent ℂ (fun p : Fin r × Fin r => (W p.1)ᴴ * W p.2) := by
+  rw [isExtremeChannel_iff_choi]
+  choose c hc using hcol
+  refine choiExtreme_iff_of_basis (choi Φ) ((isChannel_iff_choi Φ).mp hΦ) W hLI (Matrix.of fun p k => c k p) ?_ hr
+  ext p k
+  have := congrFun (hc k) p
+  rw [Matrix.mul_apply]
+  exact this
+
+/-- **Choi's theorem on extreme channels (Choi 1975; Watrous, Thm 2.31).**  A channel `X ↦ Σ_k K_k X K_kᴴ` with linearly
+    independent Kraus operators is an extreme point of the convex set of channels iff the `r²` operators `K_kᴴ K_l` are
+    linearly independent. -/
+theorem extreme_iff_kraus_products_independent (K : Fin r → Matrix (Fin dO) (Fin di) ℂ) (hLI : LinearIndependent ℂ K)
+    (hTP : ∑ k, (K k)ᴴ * K k = 1) :
+    IsExtremeChannel (krausMap K) ↔ LinearIndependent ℂ (fun p : Fin r × Fin r => (K p.1)ᴴ * K p.2) := by
+  rw [isExtremeChannel_iff_choi, choi_krausMap_eq]
+  exact choiExtreme_kraus_iff K hLI hTP
+
+/-- Sufficiency needs no assumption on the Kraus operators: if the products `K_kᴴ K_l` of a trace-preserving Kraus family
+    are linearly independent (which forces the `K_k` to be independent), the channel is extreme. -/
+theorem extreme_of_products_independent (K : Fin r → Matrix (Fin dO) (Fin di) ℂ) (hTP : ∑ k, (K k)ᴴ * K k = 1)
+    (h : LinearIndependent ℂ (fun p : Fin r × Fin r => (K p.1)ᴴ * K p.2)) : IsExtremeChannel (krausMap K) :=
+  (extreme_iff_kraus_products_independent K (linearIndependent_of_products K h) hTP).mpr h
+
+/-- A unitary channel is an extreme point of the set of channels. -/
+theorem unitary_channel_extreme (Φ : LMap di di) (h : IsUnitaryChannel Φ) : IsExtremeChannel Φ := by
+  obtain ⟨U, h1, _, hΦ⟩ := h
+  have e : Φ = krausMap (one_fam U) := by
+    apply LinearMap.ext; intro X; rw [hΦ, krausMap_one_fam]
+  rcases Nat.eq_zero_or_pos di with rfl | hd
+  · have hsub : ∀ Ψ Ψ' : LMap 0 0, Ψ = Ψ' := fun Ψ Ψ' => LinearMap.ext fun X => Subsingleton.elim _ _
+    refine ⟨?_, fun Φ₀ Φ₁ _ _ _ _ _ _ => ⟨hsub _ _, hsub _ _⟩⟩
+    rw [e]
+    exact ⟨kraus_isCP _, krausMap_tp_of_complete _ (by rw [Fin.sum_univ_one]; exact h1)⟩
+  · rw [e]
+    have hTP : ∑ k, (one_fam U k)ᴴ * one_fam U k = 1 := by rw [Fin.sum_univ_one]; exact h1
+    exact extreme_of_products_independent _ hTP (products_independent_of_single _ rfl hd hTP)
+
+/-- **`extremalDecide` decides extremality.**  If the exact matrix `c.J` denotes the Choi matrix of a channel `Φ`, the
+    executable test (pivot columns of `J` as a basis `W_1 … W_r` of the span of the Kraus operators, exact rank of the `r²`
+    flattened products `W_kᴴ W_l` compared with `r²`) answers `true` exactly when `Φ` is an extreme point of the convex set of
+    channels. -/
+theorem extremalDecide_correct (c : ChoiForm) (Φ : LMap c.di c.dO) (h : choi Φ = toChoi c.J) (hΦ : IsChannel Φ) :
+    extremalDecide c.di c.dO c.toQM = true ↔ IsExtremeChannel Φ := by
+  rw [isExtremeChannel_iff_choi, h]
+  exact extremalDecide_iff_choiExtreme c (h ▸ (isChannel_iff_choi Φ).mp hΦ)
+
+/-- The field `extremal` of the driver's report is that decision. -/
+theorem report_extremal_correct {k : Nat} (c : ChoiForm) (Φ : LMap c.di c.dO) (L : Option (EMat (c.di * c.dO) k))
+    (v : Option (EMat (c.di * c.dO) 1)) (h : choi Φ = toChoi c.J) (hΦ : IsChannel Φ) :
+    (report c L v).extremal = true ↔ IsExtremeChannel Φ :=
+  extremalDecide_correct c Φ h hΦ
+
+/-- **The procedure of `is_extremal` is right on linearly independent Kraus lists.**  For a list of exact operators that is
+    linearly independent and satisfies `Σ KᴴK = 1` (input dimension at least one), `matrix_rank([K_iᴴ K_j]) == r²` — with the
+    shortcut `True` for a single operator — answers `true` exactly when the channel is extreme. -/
+theorem extremalAsCoded_correct (di dO : Nat) (Ks : List (Nat → Nat → QI)) (hd : 0 < di)
+    (hLI : LinearIndependent ℂ (fun k : Fin Ks.length => fnToM dO di Ks[k]))
+    (hTP : ∑ k : Fin Ks.length, (fnToM dO di Ks[k])ᴴ * fnToM dO di Ks[k] = 1) :
+    extremalAsCoded di dO Ks = true ↔ IsExtremeChannel (krausMap fun k : Fin Ks.length => fnToM dO di Ks[k]) := by
+  rw [isExtremeChannel_iff_choi, choi_krausMap_eq]
+  exact extremalAsCoded_iff_choiExtreme di dO Ks hd hLI hTP
+
+/-- **… and answers `false` on every linearly dependent list of two or more operators**, whether or not the channel is
+    extreme (the known finding `c06-extremal-redundant-kraus`: e.g. the unitary channel written as `[3/5·U, 4/5·U]`). -/
+theorem extremalAsCoded_dependent (di dO : Nat) (Ks : List (Nat → Nat → QI)) (hr : Ks.length ≠ 1)
+    (hdep : ¬ LinearIndependent ℂ (fun k : Fin Ks.length => fnToM dO di Ks[k])) :
+    extremalAsCoded di dO Ks = false :=
+  extremalAsCoded_of_dependent di dO Ks hr hdep
+
+/-! ### the deciders on concrete channels (non-vacuity) -/
+
+/-- the identity channel on one qubit -/
+private def JidE : EMat (2 * 2) (2 * 2) :=
+  EMat.ofFn fun p q => if p.val / 2 = p.val % 2 ∧ q.val / 2 = q.val % 2 then 1 else 0
+/-- the completely depolarizing channel on one qubit: `J = 1/2` -/
+private def JdepE : EMat (2 * 2) (2 * 2) := EMat.ofFn fun p q => if p = q then ⟨1 / 2, 0⟩ else 0
+/-- amplitude damping with `√γ = 3/5`, `√(1-γ) = 4/5`: `J = vec K₀ vec K₀ᴴ + vec K₁ vec K₁ᴴ`, `K₀ = diag(1, 4/5)`, `K₁ = (3/5)·E₀₁` -/
+private def JadE : EMat (2 * 2) (2 * 2) :=
+  EMat.ofFn fun p q =>
+    match p.val, q.val with
+    | 0, 0 => 1 | 0, 3 => ⟨4 / 5, 0⟩ | 3, 0 => ⟨4 / 5, 0⟩ | 3, 3 => ⟨16 / 25, 0⟩ | 2, 2 => ⟨9 / 25, 0⟩
+    | _, _ => 0
+
+/-- the identity channel is extreme -/
+example : extremalDecide 2 2 (ChoiForm.toQM ⟨2, 2, JidE⟩) = true := by decide +kernel
+/-- the completely depolarizing channel is not -/
+example : extremalDecide 2 2 (ChoiForm.toQM ⟨2, 2, JdepE⟩) = false := by decide +kernel
+/-- the amplitude damping channel is (it is trace preserving, of Choi rank two) -/
+example : tpDecide (di := 2) (dO := 2) JadE = true ∧ rankQ 4 4 (ChoiForm.toQM ⟨2, 2, JadE⟩) = 2
+    ∧ extremalDecide 2 2 (ChoiForm.toQM ⟨2, 2, JadE⟩) = true := by decide +kernel
+/-- the identity channel on a one-dimensional space written as `[3/5, 4/5]`: `is_extremal`'s procedure says `false`, Choi's
+    criterion on a basis says `true` -/
+example : extremalAsCoded 1 1 [fun _ _ => ⟨3 / 5, 0⟩, fun _ _ => ⟨4 / 5, 0⟩] = false
+    ∧ extremalDecide 1 1 (ChoiForm.toQM ⟨1, 1, EMat.ofFn fun _ _ => 1⟩) = true := by decide +kernel
+
+end Toq.C06
+end Extremality
+
+
+/-! ## parameter ranges of the Choi-form constructors: exactly when the returned matrix is a channel -/
+section Ranges
+open Toq.ChannelProps Toq.ChanPropSpec Toq.ChanPropProofs Matrix
+open scoped ComplexOrder
+namespace Toq.C06
+
+/-- **Depolarizing channel: the exact range.**  For `d ≥ 2` the matrix `depolarizing(d, p)` is positive semidefinite — the
+    map is completely positive, hence (being trace preserving for every `p`) a channel — exactly for
+    `-1/(d²-1) ≤ p ≤ 1`, written as `p ≤ 1 ∧ 0 ≤ 1 + p(d²-1)`. -/
+theorem depolarizing_cp_iff (d : Nat) (hd : 2 ≤ d) (p : ℝ) :
+    (toT (depolChoi d (p : ℂ)) : TMat d d).PosSemidef ↔ p ≤ 1 ∧ 0 ≤ 1 + p * ((d : ℝ) ^ 2 - 1) := by
+  have hd0 : (0 : ℝ) < d := Nat.cast_pos.mpr (by omega)
+  have hdc : (d : ℂ) ≠ 0 := Nat.cast_ne_zero.mpr (by omega)
+  rw [toT_depol_eq]
+  constructor
+  · intro h
+    constructor
+    · -- a diagonal entry away from the support of ψ is (1-p)/d
+      have h1 := h.diag_nonneg (i := ((⟨0, by omega⟩ : Fin d), (⟨1, by omega⟩ : Fin d)))
+      have hne : ¬ ((⟨0, by omega⟩ : Fin d) = (⟨1, by omega⟩ : Fin d)) := by simp [Fin.ext_iff]
+      simp only [Matrix.add_apply, Matrix.smul_apply, Matrix.one_apply_eq, vecMulVec_apply, maxEntVec, hne, if_false,
+        smul_eq_mul, mul_one, mul_zero, add_zero, Pi.star_apply, star_zero] at h1
+      have e : (1 - (p : ℂ)) / (d : ℂ) = (((1 - p) / d : ℝ) : ℂ) := by push_cast; rfl
+      rw [e, Complex.zero_le_real] at h1
+      have := (div_nonneg_iff.mp h1)
+      rcases this with ⟨h2, _⟩ | ⟨_, h3⟩
+      · linarith
+      · linarith
+    · have h2 := h.dotProduct_mulVec_nonneg (maxEntVec d)
+      rw [quad_maxEnt_depol] at h2
+      have e : (1 - (p : ℂ)) / (d : ℂ) * d + (p : ℂ) * ((d : ℂ) * d) = ((1 + p * ((d : ℝ) ^ 2 - 1) : ℝ) : ℂ) := by
+        push_cast; field_simp; ring
+      rw [e, Complex.zero_le_real] at h2
+      exact h2
+  · rintro ⟨h1, h2⟩
+    have e : ((1 - (p : ℂ)) / (d : ℂ)) • (1 : TMat d d) + (p : ℂ) • vecMulVec (maxEntVec d) (star (maxEntVec d))
+        = (((1 - p) / (d : ℝ) ^ 2 : ℝ) : ℂ) • ((d : ℂ) • (1 : TMat d d) - vecMulVec (maxEntVec d) (star (maxEntVec d)))
+          + (((1 + p * ((d : ℝ) ^ 2 - 1)) / (d : ℝ) ^ 2 : ℝ) : ℂ) • vecMulVec (maxEntVec d) (star (maxEntVec d)) := by
+      rw [smul_sub, smul_smul, sub_add_eq_add_sub, add_sub_assoc, ← sub_smul]
+      congr 2
+      · push_cast; field_simp
+      · push_cast; field_simp; ring
+    rw [e]
+    refine ((smul_one_sub_maxEnt_psd d).smul ?_).add ((posSemidef_vecMulVec_self_star _).smul ?_)
+    · exact Complex.zero_le_real.mpr (div_nonneg (sub_nonneg.mpr h1) (sq_nonneg _))
+    · exact Complex.zero_le_real.mpr (div_nonneg h2 (sq_nonneg _))
+
+/-- For `p > 1` (just outside the documented range) `depolarizing(d, p)`, `d ≥ 2`, is not completely positive. -/
+theorem depolarizing_not_cp_of_gt_one (d : Nat) (hd : 2 ≤ d) (p : ℝ) (hp : 1 < p) :
+    ¬ IsCP (ofChoi (toT (depolChoi d (p : ℂ)) : TMat d d)) := by
+  rw [cp_iff_choi_psd, choi_ofChoi, depolarizing_cp_iff d hd]
+  intro h; linarith [h.1]
+
+/-- For `p > 1` the matrix `dephasing(d, p)`, `d ≥ 2`, is not positive semidefinite (the map is not completely positive):
+    the vector `e₀₀ - e₁₁` has quadratic form `2(1-p) < 0`. -/
+theorem dephasing_not_cp_of_gt_one (d : Nat) (hd : 2 ≤ d) (p : ℝ) (hp : 1 < p) :
+    ¬ IsCP (ofChoi (toT (dephChoi d (p : ℂ)) : TMat d d)) := by
+  rw [cp_iff_choi_psd, choi_ofChoi]
+  intro h
+  let i0 : Fin d := ⟨0, by omega⟩
+  let i1 : Fin d := ⟨1, by omega⟩
+  have hne : i0 ≠ i1 := by simp [i0, i1, Fin.ext_iff]
+  -- the 2×2 principal submatrix on (0,0), (1,1) is [[1, p], [p, 1]]
+  have hs := h.submatrix ![(i0, i0), (i1, i1)]
+  have hq := hs.dotProduct_mulVec_nonneg ![1, -1]
+  simp only [dotProduct, Matrix.mulVec, Fin.sum_univ_two, Matrix.submatrix_apply, Matrix.cons_val_zero,
+    Matrix.cons_val_one, Pi.star_apply, toT, dephChoi, psi_idx, idx_inj] at hq
+  simp only [hne, hne.symm, and_self, if_true, if_false] at hq
+  have hr := (Complex.nonneg_iff.mp hq).1
+  simp at hr
+  linarith
+
+end Toq.C06
+end Ranges
+
+
+/-! ## Pauli channels: agreement of the Choi and Kraus forms; remaining direct-application ties -/
+section PauliExtra
+open Toq.ChannelProps Toq.ChanPropSpec Toq.ChanPropProofs Matrix
+open scoped Kronecker ComplexOrder
+namespace Toq.C06
+
+/-- Every Pauli string is Hermitian. -/
+theorem pauliString_hermitian (q j : Nat) :
+    (toSq (2 ^ q) (pauliString Complex.I q j))ᴴ = toSq (2 ^ q) (pauliString Complex.I q j) := by
+  induction q generalizing j with
+  | zero =>
+    show (toSq 1 _)ᴴ = toSq 1 _
+    ext a b
+    obtain rfl : a = b := Subsingleton.elim a b
+    simp [toSq, pauliString, prodFn]
+  | succ q ih =>
+    show (toSq (2 ^ q * 2) _)ᴴ = toSq (2 ^ q * 2) _
+    have e : toSq (2 ^ q * 2) (pauliString Complex.I (q + 1) j)
+        = toSq (2 ^ q * 2) (fun a b => pauliString Complex.I q (j / 4) (a / 2) (b / 2)
+            * pauli1 Complex.I (j % 4) (a % 2) (b % 2)) := by
+      ext a b
+      exact pauliString_succ _ _ _ _ _
+    rw [e]
+    exact toSq_kron_hermitian _ _ _ _ (ih (j / 4)) (pauli1_hermitian (j % 4))
+
+/-- **Choi and Kraus forms of `pauli_channel` agree.**  For non-negative weights the matrix accumulated by `pauli_channel`
+    (`Σ_j p_j · kraus_to_choi([[P_j, P_jᴴ]])`) is the Choi matrix of the map with the returned Kraus list `[√p_j · P_j]`. -/
+theorem pauliChoi_eq_choi_kraus (q : Nat) (p : Fin (4 ^ q) → ℝ) (hp : ∀ k, 0 ≤ p k) :
+    (Matrix.of fun (P Q : Fin (2 ^ q) × Fin (2 ^ q)) =>
+        pauliChoi Complex.I q (fun j => if h : j < 4 ^ q then ((p ⟨j, h⟩ : ℝ) : ℂ) else 0)
+          (P.1.val * 2 ^ q + P.2.val) (Q.1.val * 2 ^ q + Q.2.val) : TMat (2 ^ q) (2 ^ q))
+      = choi (krausMap fun k : Fin (4 ^ q) => ((Real.sqrt (p k) : ℝ) : ℂ) • toSq (2 ^ q) (pauliString Complex.I q k)) := by
+  rw [pauliChoi_eq]
+  ext ⟨i, a⟩ ⟨j, b⟩
+  rw [choi_krausMap_apply, Matrix.sum_apply]
+  refine Finset.sum_congr rfl fun k _ => ?_
+  rw [dif_pos k.isLt, Matrix.smul_apply, choi_pairMap_apply, Fin.sum_univ_one, pauliString_hermitian, smul_eq_mul]
+  simp only [Matrix.smul_apply, smul_eq_mul, star_mul', Complex.star_def, Complex.conj_ofReal]
+  have hs : ((Real.sqrt (p k) : ℝ) : ℂ) * ((Real.sqrt (p k) : ℝ) : ℂ) = ((p k : ℝ) : ℂ) := by
+    rw [← Complex.ofReal_mul, Real.mul_self_sqrt (hp k)]
+  rw [← hs]
+  ring
+
+/-- **`pauli_channel` returns a unital channel, in every form.**  For a probability vector over the `4^q` Pauli strings the
+    map whose Choi matrix `pauli_channel` returns is completely positive, trace preserving, unital, equals the map of the
+    returned Kraus list `[√p_j · P_j]`, and acts as `X ↦ Σ_j p_j P_j X P_jᴴ` (the direct-application output). -/
+theorem pauli_channel_channel (q : Nat) (p : Fin (4 ^ q) → ℝ) (hs : ∑ k, p k = 1) (hp : ∀ k, 0 ≤ p k) :
+    let Φ := ofChoi (Matrix.of fun (P Q : Fin (2 ^ q) × Fin (2 ^ q)) =>
+        pauliChoi Complex.I q (fun j => if h : j < 4 ^ q then ((p ⟨j, h⟩ : ℝ) : ℂ) else 0)
+          (P.1.val * 2 ^ q + P.2.val) (Q.1.val * 2 ^ q + Q.2.val) : TMat (2 ^ q) (2 ^ q))
+    Φ = krausMap (fun k : Fin (4 ^ q) => ((Real.sqrt (p k) : ℝ) : ℂ) • toSq (2 ^ q) (pauliString Complex.I q k)) ∧
+    IsChannel Φ ∧ IsUnital Φ ∧
+    ∀ X, Φ X = ∑ k : Fin (4 ^ q), (p k : ℂ) • (toSq (2 ^ q) (pauliString Complex.I q k) * X
+          * (toSq (2 ^ q) (pauliString Complex.I q k))ᴴ) := by
+  intro Φ
+  have e : Φ = krausMap (fun k : Fin (4 ^ q) => ((Real.sqrt (p k) : ℝ) : ℂ) • toSq (2 ^ q) (pauliString Complex.I q k)) := by
+    show ofChoi _ = _
+    rw [pauliChoi_eq_choi_kraus q p hp, choi_faithful]
+  obtain ⟨h1, h2, h3⟩ := pauli_channel_kraus_tp_unital q p hs hp
+  refine ⟨e, ?_, ?_, ?_⟩
+  · rw [e]; exact ⟨kraus_isCP _, h1⟩
+  · rw [e]; exact h2
+  · rw [e]; exact h3
+
+/-- The driver's direct application formula `Σ_K K X Kᵀ` on the phase-damping list is the Kraus map. -/
+theorem phase_damping_model_apply (sg cg : ℝ) (X : Nat → Nat → ℂ) (a b : Nat) (ha : a < 2) (hb : b < 2) :
+    applyReal2 (pdKraus (sg : ℂ) cg) X a b
+      = krausMap (fam2 (pdKraus (sg : ℂ) cg)) (toSq 2 X) ⟨a, ha⟩ ⟨b, hb⟩ := by
+  rw [phase_damping_apply]
+  have ha' : a = 0 ∨ a = 1 := by omega
+  have hb' : b = 0 ∨ b = 1 := by omega
+  rcases ha' with rfl | rfl <;> rcases hb' with rfl | rfl <;>
+    simp [applyReal2, pdKraus, sumN, m22, toSq] <;> ring
+
+/-- The driver's direct application formula on the bit-flip list is the Kraus map. -/
+theorem bitflip_model_apply (s c : ℝ) (X : Nat → Nat → ℂ) (a b : Nat) (ha : a < 2) (hb : b < 2) :
+    applyReal2 (bfKraus (s : ℂ) c) X a b
+      = krausMap (fam2 (bfKraus (s : ℂ) c)) (toSq 2 X) ⟨a, ha⟩ ⟨b, hb⟩ := by
+  have h : krausMap (fam2 (bfKraus (s : ℂ) c)) (toSq 2 X)
+      = !![(c : ℂ) ^ 2 * X 0 0 + (s : ℂ) ^ 2 * X 1 1, (c : ℂ) ^ 2 * X 0 1 + (s : ℂ) ^ 2 * X 1 0;
+           (c : ℂ) ^ 2 * X 1 0 + (s : ℂ) ^ 2 * X 0 1, (c : ℂ) ^ 2 * X 1 1 + (s : ℂ) ^ 2 * X 0 0] := by
+    rw [krausMap_apply', fam2_bfKraus]
+    show ∑ k : Fin 2, _ = _
+    rw [Fin.sum_univ_two]
+    ext i j
+    fin_cases i <;> fin_cases j <;>
+      simp only [Matrix.add_apply, Matrix.mul_apply, Fin.sum_univ_two, Matrix.conjTranspose_apply, toSq_apply] <;>
+      simp <;> ring
+  rw [h]
+  have ha' : a = 0 ∨ a = 1 := by omega
+  have hb' : b = 0 ∨ b = 1 := by omega
+  rcases ha' with rfl | rfl <;> rcases hb' with rfl | rfl <;>
+    simp [applyReal2, bfKraus, sumN, m22] <;> ring
+
+end Toq.C06
+end PauliExtra
+
+
+/-! ## tolerance arithmetic: the exact mirror of `np.allclose` and the margin of the three-valued verdicts -/
+section Tolerances
+open Toq.ChannelProps Toq.ChanPropSpec Toq.ChanPropProofs Matrix
+open scoped ComplexOrder
+namespace Toq.C06
+variable {di dO : Nat}
+
+/-- **The mirror of `np.allclose` means `np.allclose`.**  For non-negative tolerances, `allcloseQ rtol atol A B` is `true`
+    exactly when `|A_ij - B_ij| ≤ atol + rtol·|B_ij|` (complex moduli) holds in every entry of the denoted matrices. -/
+theorem allclose_mirror {n m : Nat} (rtol atol : Rat) (hr : 0 ≤ rtol) (ha : 0 ≤ atol) (A B : EMat n m) :
+    allcloseQ rtol atol A B = true ↔
+      ∀ i j, ‖A.toM i j - B.toM i j‖ ≤ (atol : ℝ) + (rtol : ℝ) * ‖B.toM i j‖ :=
+  allcloseQ_iff rtol atol hr ha A B
+
+/-- The mirror of `is_trace_preserving(J, rtol, atol)`: `Tr_out J` is entrywise within `atol + rtol·δ_ij` of the identity. -/
+theorem tpClose_iff (rtol atol : Rat) (hr : 0 ≤ rtol) (ha : 0 ≤ atol) (J : EMat (di * dO) (di * dO)) :
+    tpClose rtol atol J = true ↔
+      ∀ i j, ‖Toq.ChanPropSpec.ptraceOut (toChoi J) i j - (1 : Matrix (Fin di) (Fin di) ℂ) i j‖
+        ≤ (atol : ℝ) + (rtol : ℝ) * ‖(1 : Matrix (Fin di) (Fin di) ℂ) i j‖ := by
+  unfold tpClose
+  rw [allcloseQ_iff rtol atol hr ha, toM_ptraceOut, EMat.toM_one]
+
+/-- The mirror of `is_unital(J, rtol, atol)`: `Tr_in J = Φ(1)` is entrywise within `atol + rtol·δ_ab` of the identity. -/
+theorem unitalClose_iff (rtol atol : Rat) (hr : 0 ≤ rtol) (ha : 0 ≤ atol) (J : EMat (di * dO) (di * dO)) :
+    unitalClose rtol atol J = true ↔
+      ∀ a b, ‖Toq.ChanPropSpec.ptraceIn (toChoi J) a b - (1 : Matrix (Fin dO) (Fin dO) ℂ) a b‖
+        ≤ (atol : ℝ) + (rtol : ℝ) * ‖(1 : Matrix (Fin dO) (Fin dO) ℂ) a b‖ := by
+  unfold unitalClose
+  rw [allcloseQ_iff rtol atol hr ha, toM_ptraceIn, EMat.toM_one]
+
+/-- The mirror of `is_herm_preserving(J, rtol, atol)`: `|J_pq - conj(J_qp)| ≤ atol + rtol·|J_qp|` for all `p, q`. -/
+theorem hpClose_iff (rtol atol : Rat) (hr : 0 ≤ rtol) (ha : 0 ≤ atol) (J : EMat (di * dO) (di * dO)) :
+    hpClose rtol atol J = true ↔
+      ∀ p q, ‖J.toM p q - star (J.toM q p)‖ ≤ (atol : ℝ) + (rtol : ℝ) * ‖J.toM q p‖ := by
+  unfold hpClose
+  rw [allcloseQ_iff rtol atol hr ha, EMat.toM_ct]
+  simp only [Matrix.conjTranspose_apply, norm_star]
+
+/-- **A verdict `yes` is inside every tolerance**: if the exact decider finds the two sides equal, `np.allclose` holds for all
+    non-negative `rtol`, `atol`. -/
+theorem eqV_yes_imp_allclose {n m : Nat} (rtol atol : Rat) (hr : 0 ≤ rtol) (ha : 0 ≤ atol) (A B : EMat n m) :
+    eqV A B = Verdict.yes → allcloseQ rtol atol A B = true :=
+  fun h => allcloseQ_of_eq rtol atol hr ha A B ((eqV_yes_iff A B).mp h)
+
+/-- **A verdict `no` is outside the tolerance**: if the exact decider finds the two sides apart by its margin
+    `100·(1e-8 + 1e-5·scale)`, then `np.allclose` fails for every `rtol ≤ 1e-5`, `atol ≤ 1e-8` (in particular toqito's
+    defaults).  Together with `eqV_yes_imp_allclose`: on every input on which the three-valued deciders answer `yes` or `no`, the
+    tolerance test of `is_trace_preserving` / `is_unital` / `is_herm_preserving` evaluated exactly gives the same answer. -/
+theorem eqV_no_imp_not_allclose {n m : Nat} (rtol atol : Rat) (hr0 : 0 ≤ rtol) (ha0 : 0 ≤ atol)
+    (hr : rtol ≤ 1 / 100000) (ha : atol ≤ 1 / 100000000) (A B : EMat n m) :
+    eqV A B = Verdict.no → allcloseQ rtol atol A B = false :=
+  fun h => not_allcloseQ_of_farApart rtol atol hr0 ha0 hr ha A B (eqV_no A B h)
+
+/-- The three verdicts about a Choi matrix agree with the exact mirrors of toqito's tolerance tests at the default
+    tolerances whenever they are decided. -/
+theorem verdicts_agree_with_default_tolerances (J : EMat (di * dO) (di * dO)) :
+    (tpV J = Verdict.yes → tpClose (1 / 100000) (1 / 100000000) J = true) ∧
+    (tpV J = Verdict.no → tpClose (1 / 100000) (1 / 100000000) J = false) ∧
+    (unitalV J = Verdict.yes → unitalClose (1 / 100000) (1 / 100000000) J = true) ∧
+    (unitalV J = Verdict.no → unitalClose (1 / 100000) (1 / 100000000) J = false) ∧
+    (hpV J = Verdict.yes → hpClose (1 / 100000) (1 / 100000000) J = true) ∧
+    (hpV J = Verdict.no → hpClose (1 / 100000) (1 / 100000000) J = false) := by
+  have h1 : (0 : Rat) ≤ 1 / 100000 := by norm_num
+  have h2 : (0 : Rat) ≤ 1 / 100000000 := by norm_num
+  exact ⟨eqV_yes_imp_allclose _ _ h1 h2 _ _, eqV_no_imp_not_allclose _ _ h1 h2 le_rfl le_rfl _ _,
+    eqV_yes_imp_allclose _ _ h1 h2 _ _, eqV_no_imp_not_allclose _ _ h1 h2 le_rfl le_rfl _ _,
+    eqV_yes_imp_allclose _ _ h1 h2 _ _, eqV_no_imp_not_allclose _ _ h1 h2 le_rfl le_rfl _ _⟩
+
+/-- **The eigenvalue test of `is_positive_semidefinite`.**  For a Hermitian matrix, `A + c·1 ⪰ 0` holds exactly when every
+    eigenvalue is at least `-c` (the test `all(x >= -abs(atol) for x in evals)` with `c = |atol|`). -/
+theorem psd_shift_iff_eigenvalues {n : Type*} [Fintype n] [DecidableEq n] {A : Matrix n n ℂ} (hA : A.IsHermitian) (c : ℝ) :
+    (A + (c : ℂ) • (1 : Matrix n n ℂ)).PosSemidef ↔ ∀ i, -c ≤ hA.eigenvalues i := by
+  obtain ⟨U, hU, hU', hAe⟩ : ∃ U : Matrix n n ℂ, U * Uᴴ = 1 ∧ Uᴴ * U = 1 ∧
+      A = U * diagonal (fun i => (hA.eigenvalues i : ℂ)) * Uᴴ := by
+    refine ⟨hA.eigenvectorUnitary, ?_, ?_, ?_⟩
+    · rw [← star_eq_conjTranspose]; exact Unitary.coe_mul_star_self _
+    · rw [← star_eq_conjTranspose]; exact Unitary.coe_star_mul_self _
+    · have := hA.spectral_theorem
+      rw [Unitary.conjStarAlgAut_apply] at this
+      exact this
+  have key : A + (c : ℂ) • (1 : Matrix n n ℂ) = U * diagonal (fun i => ((hA.eigenvalues i + c : ℝ) : ℂ)) * Uᴴ := by
+    have hd : diagonal (fun i => ((hA.eigenvalues i + c : ℝ) : ℂ))
+        = diagonal (fun i => (hA.eigenvalues i : ℂ)) + (c : ℂ) • (1 : Matrix n n ℂ) := by
+      ext i j
+      by_cases h : i = j
+      · subst h; simp
+      · simp [h]
+    rw [hd, Matrix.mul_add, Matrix.add_mul, ← hAe, Matrix.mul_smul, Matrix.mul_one, Matrix.smul_mul, hU]
+  have hdiag : (diagonal (fun i => ((hA.eigenvalues i + c : ℝ) : ℂ))).PosSemidef ↔ ∀ i, -c ≤ hA.eigenvalues i := by
+    rw [posSemidef_diagonal_iff]
+    refine forall_congr' fun i => ?_
+    rw [Complex.zero_le_real]
+    constructor <;> intro h <;> linarith
+  rw [← hdiag, key]
+  constructor
+  · intro h
+    have := h.conjTranspose_mul_mul_same U
+    rwa [← Matrix.mul_assoc, ← Matrix.mul_assoc, hU', Matrix.one_mul, Matrix.mul_assoc, hU', Matrix.mul_one] at this
+  · intro h
+    exact h.mul_mul_conjTranspose_same U
+
+/-- **`psdTolV = yes` means `is_positive_semidefinite` holds on the exact input**: the matrix is Hermitian and `J + |atol|·1 ⪰ 0`,
+    i.e. every eigenvalue is `≥ -|atol|` (`psd_shift_iff_eigenvalues`). -/
+theorem psdTolV_yes_imp {n k : Nat} (rtol atol : Rat) (J : EMat n n) (L : Option (EMat n k)) (c : Rat)
+    (v : Option (EMat n 1)) (μ : Rat) :
+    psdTolV rtol atol J L c v μ = Verdict.yes →
+      J.toM.IsHermitian ∧ (J.toM + ((absQ atol : Rat) : ℂ) • (1 : Matrix (Fin n) (Fin n) ℂ)).PosSemidef := by
+  unfold psdTolV
+  split_ifs with h1 h2 h3 h4
+  · simp
+  · simp
+  · intro _
+    have hH : J.toM.IsHermitian := (isHermitian_iff J).mp (by simpa using h2)
+    refine ⟨hH, ?_⟩
+    cases L with
+    | none => simp at h3
+    | some L =>
+      simp only [Bool.and_eq_true, decide_eq_true_eq] at h3
+      obtain ⟨⟨hc0, hc⟩, hL⟩ := h3
+      have hp := psdCert_sound _ L hL
+      rw [EMat.toM_add, EMat.toM_scalar] at hp
+      have hd : (0 : ℂ) ≤ (((absQ atol - c : Rat) : ℝ) : ℂ) := by
+        rw [Complex.zero_le_real]; exact_mod_cast sub_nonneg.mpr hc
+      have := hp.add (PosSemidef.one.smul hd)
+      convert this using 1
+      rw [add_assoc, ← add_smul]
+      congr 2
+      push_cast; ring
+  · simp
+  · simp
+
+/-- **`psdTolV = no` means `is_positive_semidefinite` fails on the exact input**: the Hermiticity test fails, or the matrix is
+    Hermitian and `J + |atol|·1` is not positive semidefinite, i.e. some eigenvalue is `< -|atol|`. -/
+theorem psdTolV_no_imp {n k : Nat} (rtol atol : Rat) (J : EMat n n) (L : Option (EMat n k)) (c : Rat)
+    (v : Option (EMat n 1)) (μ : Rat) :
+    psdTolV rtol atol J L c v μ = Verdict.no →
+      allcloseQ rtol atol J J.ct = false ∨
+      (J.toM.IsHermitian ∧ ¬ (J.toM + ((absQ atol : Rat) : ℂ) • (1 : Matrix (Fin n) (Fin n) ℂ)).PosSemidef) := by
+  unfold psdTolV
+  split_ifs with h1 h2 h3 h4
+  · intro _; left; simpa using h1
+  · simp
+  · simp
+  · intro _
+    right
+    have hH : J.toM.IsHermitian := (isHermitian_iff J).mp (by simpa using h2)
+    refine ⟨hH, ?_⟩
+    cases v with
+    | none => simp at h4
+    | some v =>
+      simp only [Bool.and_eq_true, decide_eq_true_eq] at h4
+      obtain ⟨hμ, hw⟩ := h4
+      have := (negWitness_sound J v μ hw).2 ((absQ atol : Rat) : ℝ) (by exact_mod_cast hμ)
+      simpa using this
+  · simp
+
+end Toq.C06
+end Tolerances
+
+
+/-! ## the list branch of `is_trace_preserving` -/
+section PairsTP
+open Toq.ChannelProps Toq.ChanPropSpec Toq.ChanPropProofs Matrix
+open scoped ComplexOrder
+namespace Toq.C06
+
+/-- **The list branch of `is_trace_preserving` computes `Σ_k A_kᴴ B_k`.**  For a paired list of exact `dO × di` operators the
+    matrix `k_l.conj().T @ k_r` of the stacked operators (model: `sumAdjMul`) denotes `Σ_k A_kᴴ B_k`. -/
+theorem sumAdjMul_denotes (as bs : List (Toq.ChannelOps.Mat QI)) (hl : as.length = bs.length) (di dO : Nat)
+    (hr : ∀ A ∈ as, A.r = dO) :
+    (sumAdjMul as bs di).toM
+      = ∑ k : Fin as.length, (matC di dO as[k])ᴴ * matC di dO (bs[k.val]'(hl ▸ k.isLt)) := by
+  ext i j
+  rw [Matrix.sum_apply]
+  simp only [sumAdjMul, EMat.toM_apply, EMat.get_ofFn]
+  rw [foldl_add_toC, QI.toC_zero, zero_add, List.map_map]
+  have hmap : ∀ ab ∈ as.zip bs, (QI.toC ∘ fun ab : Toq.ChannelOps.Mat QI × Toq.ChannelOps.Mat QI =>
+        sumN ab.1.r fun a => (ab.1.e a i.val).conj * ab.2.e a j.val) ab
+      = (fun ab : Toq.ChannelOps.Mat QI × Toq.ChannelOps.Mat QI => ((matC di dO ab.1)ᴴ * matC di dO ab.2) i j) ab := by
+    intro ab hab
+    have hA : ab.1.r = dO := hr _ (List.of_mem_zip hab).1
+    simp only [Function.comp_apply]
+    rw [hA, toC_sumN, Toq.ChannelOps.sumN_eq_sum_fin, Matrix.mul_apply]
+    refine Finset.sum_congr rfl fun a _ => ?_
+    rw [QI.toC_mul, QI.toC_conj]
+    rfl
+  rw [List.map_congr_left hmap]
+  rw [sum_zip_eq_sum_fin (fun A B => ((matC di dO A)ᴴ * matC di dO B) i j) as bs hl]
+
+/-- **`is_trace_preserving` on a paired list, exact test.**  `Σ_k A_kᴴ B_k = 1` exactly (the relation whose `allclose` version
+    the code tests) holds iff the map `X ↦ Σ_k A_k X B_kᴴ` preserves the trace. -/
+theorem tpPairs_correct (as bs : List (Toq.ChannelOps.Mat QI)) (hl : as.length = bs.length) (di dO : Nat)
+    (hr : ∀ A ∈ as, A.r = dO) :
+    (sumAdjMul as bs di).beq EMat.one = true ↔
+      IsTP (pairMap (fun k : Fin as.length => matC di dO as[k])
+        (fun k : Fin as.length => matC di dO (bs[k.val]'(hl ▸ k.isLt)))) := by
+  rw [beq_iff, sumAdjMul_denotes as bs hl di dO hr, EMat.toM_one, pairMap_tp_iff]
+
+/-- The mirror of `is_trace_preserving([[A, B], …], rtol, atol)`: every entry of `Σ_k A_kᴴ B_k` is within `atol + rtol·δ_ij` of the
+    identity. -/
+theorem tpPairsClose_iff (rtol atol : Rat) (hr0 : 0 ≤ rtol) (ha0 : 0 ≤ atol) (as bs : List (Toq.ChannelOps.Mat QI))
+    (hl : as.length = bs.length) (di dO : Nat) (hr : ∀ A ∈ as, A.r = dO) :
+    tpPairsClose rtol atol as bs di = true ↔
+      ∀ i j, ‖(∑ k : Fin as.length, (matC di dO as[k])ᴴ * matC di dO (bs[k.val]'(hl ▸ k.isLt))) i j
+          - (1 : Matrix (Fin di) (Fin di) ℂ) i j‖ ≤ (atol : ℝ) + (rtol : ℝ) * ‖(1 : Matrix (Fin di) (Fin di) ℂ) i j‖ := by
+  unfold tpPairsClose
+  rw [allcloseQ_iff rtol atol hr0 ha0, sumAdjMul_denotes as bs hl di dO hr, EMat.toM_one]
+
+end Toq.C06
+end PairsTP
+
+
+/-! ## the notion of extreme point used above is Mathlib's -/
+section ExtremePoints
+open Toq.ChannelProps Toq.ChanPropSpec Toq.ChanPropProofs Matrix
+open scoped ComplexOrder
+namespace Toq.C06
+variable {di dO : Nat}
+
+/-- **`IsExtremeChannel` is Mathlib's notion of extreme point** of the set of channels inside the real vector space of linear
+    maps. -/
+theorem isExtremeChannel_iff_mem_extremePoints (Φ : LMap di dO) :
+    IsExtremeChannel Φ ↔ Φ ∈ Set.extremePoints ℝ {Ψ : LMap di dO | IsChannel Ψ} := by
+  have key : ∀ (a : ℝ) (Ψ : LMap di dO), a • Ψ = (a : ℂ) • Ψ := by
+    intro a Ψ
+    apply LinearMap.ext
+    intro X
+    ext i j
+    simp [Complex.real_smul]
+  rw [mem_extremePoints]
+  unfold IsExtremeChannel
+  refine and_congr_right fun _ => ⟨fun h Φ₀ h0 Φ₁ h1 hseg => ?_, fun h Φ₀ Φ₁ t h0 h1 ht0 ht1 hc => ?_⟩
+  · obtain ⟨a, b, ha, hb, hab, hx⟩ := hseg
+    have hb' : b = 1 - a := by linarith
+    refine h Φ₀ Φ₁ a h0 h1 ha (by linarith) ?_
+    rw [← hx, hb', key, key]
+  · refine h Φ₀ h0 Φ₁ h1 ⟨t, 1 - t, ht0, by linarith, by ring, ?_⟩
+    rw [hc, key, key]
+
+end Toq.C06
+end ExtremePoints
+
+
+/-! ## dephasing: the exact parameter range -/
+section DephRange
+open Toq.ChannelProps Toq.ChanPropSpec Toq.ChanPropProofs Matrix
+open scoped ComplexOrder
+namespace Toq.C06
+
+/-- **Dephasing channel: the exact range.**  For `d ≥ 2` the matrix `dephasing(d, p)` is positive semidefinite (the map, trace
+    preserving and unital for every `p`, is a channel) exactly for `-1/(d-1) ≤ p ≤ 1`, written `p ≤ 1 ∧ 0 ≤ 1 + p(d-1)`. -/
+theorem dephasing_cp_iff (d : Nat) (hd : 2 ≤ d) (p : ℝ) :
+    (toT (dephChoi d (p : ℂ)) : TMat d d).PosSemidef ↔ p ≤ 1 ∧ 0 ≤ 1 + p * ((d : ℝ) - 1) := by
+  have hd0 : (0 : ℝ) < d := Nat.cast_pos.mpr (by omega)
+  have hdc : (d : ℂ) ≠ 0 := Nat.cast_ne_zero.mpr (by omega)
+  constructor
+  · intro h
+    constructor
+    · by_contra hp
+      rw [not_le] at hp
+      exact dephasing_not_cp_of_gt_one d hd p hp (by rw [cp_iff_choi_psd, choi_ofChoi]; exact h)
+    · have h2 := h.dotProduct_mulVec_nonneg (maxEntVec d)
+      rw [toT_deph_eq, star_maxEntVec] at h2
+      have hq : maxEntVec d ⬝ᵥ (((1 - (p : ℂ)) • diagonal (fun q : Fin d × Fin d => maxEntVec d q * maxEntVec d q)
+          + (p : ℂ) • vecMulVec (maxEntVec d) (maxEntVec d)) *ᵥ maxEntVec d)
+          = (1 - (p : ℂ)) * d + (p : ℂ) * (d * d) := by
+        have hin : ∀ P : Fin d × Fin d,
+            ∑ Q, ((1 - (p : ℂ)) * diagonal (fun q : Fin d × Fin d => maxEntVec d q * maxEntVec d q) P Q
+                + (p : ℂ) * (maxEntVec d P * maxEntVec d Q)) * maxEntVec d Q
+              = ∑ j, ((1 - (p : ℂ)) * diagonal (fun q : Fin d × Fin d => maxEntVec d q * maxEntVec d q) P (j, j)
+                + (p : ℂ) * (maxEntVec d P * maxEntVec d (j, j))) := by
+          intro P
+          rw [← sum_maxEnt (fun Q => (1 - (p : ℂ)) * diagonal (fun q : Fin d × Fin d => maxEntVec d q * maxEntVec d q) P Q
+            + (p : ℂ) * (maxEntVec d P * maxEntVec d Q))]
+          exact Finset.sum_congr rfl fun Q _ => mul_comm _ _
+        simp only [dotProduct, Matrix.mulVec, Matrix.add_apply, Matrix.smul_apply, vecMulVec_apply, smul_eq_mul, hin]
+        rw [sum_maxEnt]
+        have h1 : ∀ i j : Fin d, ((1 - (p : ℂ)) * diagonal (fun q : Fin d × Fin d => maxEntVec d q * maxEntVec d q) (i, i) (j, j)
+            + (p : ℂ) * (maxEntVec d (i, i) * maxEntVec d (j, j))) = (if i = j then (1 - (p : ℂ)) else 0) + p := by
+          intro i j
+          by_cases h : i = j
+          · subst h; simp [maxEntVec]
+          · have : ¬ ((i, i) : Fin d × Fin d) = (j, j) := fun e => h (Prod.ext_iff.mp e).1
+            simp [maxEntVec, h]
+        simp only [h1, Finset.sum_add_distrib, Finset.sum_ite_eq, Finset.mem_univ, if_true, Finset.sum_const, Finset.card_univ,
+          Fintype.card_fin, nsmul_eq_mul]
+        ring
+      rw [hq] at h2
+      have e : (1 - (p : ℂ)) * d + (p : ℂ) * ((d : ℂ) * d) = (((d : ℝ) * (1 + p * ((d : ℝ) - 1)) : ℝ) : ℂ) := by
+        push_cast; ring
+      rw [e, Complex.zero_le_real] at h2
+      exact (mul_nonneg_iff_of_pos_left hd0).mp h2
+  · rintro ⟨h1, h2⟩
+    rw [toT_deph_eq]
+    have e : (1 - (p : ℂ)) • diagonal (fun q : Fin d × Fin d => maxEntVec d q * maxEntVec d q)
+          + (p : ℂ) • vecMulVec (maxEntVec d) (star (maxEntVec d))
+        = (((1 - p) / (d : ℝ) : ℝ) : ℂ) • ((d : ℂ) • diagonal (fun q : Fin d × Fin d => maxEntVec d q * maxEntVec d q)
+            - vecMulVec (maxEntVec d) (star (maxEntVec d)))
+          + (((1 + p * ((d : ℝ) - 1)) / (d : ℝ) : ℝ) : ℂ) • vecMulVec (maxEntVec d) (star (maxEntVec d)) := by
+      rw [smul_sub, smul_smul, sub_add_eq_add_sub, add_sub_assoc, ← sub_smul]
+      congr 2
+      · push_cast; field_simp
+      · push_cast; field_simp; ring
+    rw [e]
+    refine ((smul_diag_sub_maxEnt_psd d).smul ?_).add ((posSemidef_vecMulVec_self_star _).smul ?_)
+    · exact Complex.zero_le_real.mpr (div_nonneg (sub_nonneg.mpr h1) hd0.le)
+    · exact Complex.zero_le_real.mpr (div_nonneg h2 hd0.le)
+
+end Toq.C06
+end DephRange
+
+
+/-! ## qubit constructors over the whole documented parameter range; the guards -/
+section ConstructorRanges
+open Toq.ChannelProps Toq.ChanPropSpec Toq.ChanPropProofs Matrix
+open scoped ComplexOrder
+namespace Toq.C06
+
+/-- **Generalized amplitude damping: a channel for every admissible parameter.**  For `0 ≤ γ ≤ 1` and `0 ≤ prob ≤ 1` the Kraus
+    list returned by `amplitude_damping(None, γ, prob)` — entries built from `√prob`, `√(1-prob)`, `√γ`, `√(1-γ)` — is a
+    completely positive trace-preserving map. -/
+theorem amplitude_damping_channel (γ prob : ℝ) (hγ0 : 0 ≤ γ) (hγ1 : γ ≤ 1) (hp0 : 0 ≤ prob) (hp1 : prob ≤ 1) :
+    IsChannel (krausMap (fam2 (adKraus ((Real.sqrt prob : ℝ) : ℂ) (Real.sqrt (1 - prob) : ℝ)
+      (Real.sqrt γ : ℝ) (Real.sqrt (1 - γ) : ℝ)))) := by
+  refine kraus_channel_of_complete _ (amplitude_damping_complete _ _ _ _ ?_ ?_)
+  · rw [Real.sq_sqrt hp0, Real.sq_sqrt (sub_nonneg.mpr hp1)]; ring
+  · rw [Real.sq_sqrt hγ0, Real.sq_sqrt (sub_nonneg.mpr hγ1)]; ring
+
+/-- **Phase damping: a unital channel for every `0 ≤ γ ≤ 1`.** -/
+theorem phase_damping_channel (γ : ℝ) (hγ0 : 0 ≤ γ) (hγ1 : γ ≤ 1) :
+    IsChannel (krausMap (fam2 (pdKraus ((Real.sqrt γ : ℝ) : ℂ) (Real.sqrt (1 - γ) : ℝ)))) ∧
+    IsUnital (krausMap (fam2 (pdKraus ((Real.sqrt γ : ℝ) : ℂ) (Real.sqrt (1 - γ) : ℝ)))) := by
+  have h : Real.sqrt γ ^ 2 + Real.sqrt (1 - γ) ^ 2 = 1 := by
+    rw [Real.sq_sqrt hγ0, Real.sq_sqrt (sub_nonneg.mpr hγ1)]; ring
+  exact ⟨kraus_channel_of_complete _ (phase_damping_complete _ _ h), phase_damping_unital _ _ h⟩
+
+/-- **Bit flip: a unital channel for every `0 ≤ prob ≤ 1`**, acting as `X ↦ (1-prob)·X + prob·σx X σx`. -/
+theorem bitflip_channel (prob : ℝ) (hp0 : 0 ≤ prob) (hp1 : prob ≤ 1) :
+    IsChannel (krausMap (fam2 (bfKraus ((Real.sqrt prob : ℝ) : ℂ) (Real.sqrt (1 - prob) : ℝ)))) ∧
+    IsUnital (krausMap (fam2 (bfKraus ((Real.sqrt prob : ℝ) : ℂ) (Real.sqrt (1 - prob) : ℝ)))) ∧
+    ∀ X, krausMap (fam2 (bfKraus ((Real.sqrt prob : ℝ) : ℂ) (Real.sqrt (1 - prob) : ℝ))) X
+      = ((1 - prob : ℝ) : ℂ) • X + (prob : ℂ) • ((!![0, 1; 1, 0] : Matrix (Fin 2) (Fin 2) ℂ) * X * !![0, 1; 1, 0]) := by
+  have h : Real.sqrt prob ^ 2 + Real.sqrt (1 - prob) ^ 2 = 1 := by
+    rw [Real.sq_sqrt hp0, Real.sq_sqrt (sub_nonneg.mpr hp1)]; ring
+  refine ⟨kraus_channel_of_complete _ (bitflip_complete _ _ h), bitflip_unital _ _ h, fun X => ?_⟩
+  rw [bitflip_apply]
+  have e1 : ((Real.sqrt (1 - prob) : ℝ) : ℂ) ^ 2 = ((1 - prob : ℝ) : ℂ) := by
+    rw [← Complex.ofReal_pow, Real.sq_sqrt (sub_nonneg.mpr hp1)]
+  have e2 : ((Real.sqrt prob : ℝ) : ℂ) ^ 2 = (prob : ℂ) := by
+    rw [← Complex.ofReal_pow, Real.sq_sqrt hp0]
+  rw [e1, e2]
+
+/-- The parameter guard of `amplitude_damping` accepts exactly the documented ranges (and a `2 × 2` input when one is given). -/
+theorem adGuard_ok_iff (gamma prob : Rat) (shape : Option (Nat × Nat)) :
+    adGuard gamma prob shape = Guard.ok ↔
+      (0 ≤ prob ∧ prob ≤ 1) ∧ (0 ≤ gamma ∧ gamma ≤ 1) ∧ (shape = none ∨ shape = some (2, 2)) := by
+  unfold adGuard inUnit
+  by_cases h1 : 0 ≤ prob ∧ prob ≤ 1
+  · by_cases h2 : 0 ≤ gamma ∧ gamma ≤ 1
+    · cases shape with
+      | none => simp [h1, h2]
+      | some s => by_cases h3 : s = (2, 2) <;> simp [h1, h2, h3]
+    · have : ¬ (decide (0 ≤ gamma) && decide (gamma ≤ 1)) = true := by simpa using h2
+      simp [h1, h2, this]
+  · have : ¬ (decide (0 ≤ prob) && decide (prob ≤ 1)) = true := by simpa using h1
+    simp [this]
+    intro a b; exact absurd ⟨a, b⟩ h1
+
+/-- The parameter guard of `phase_damping` accepts exactly `0 ≤ γ ≤ 1` (and a `2 × 2` input when one is given). -/
+theorem pdGuard_ok_iff (gamma : Rat) (shape : Option (Nat × Nat)) :
+    pdGuard gamma shape = Guard.ok ↔ (0 ≤ gamma ∧ gamma ≤ 1) ∧ (shape = none ∨ shape = some (2, 2)) := by
+  unfold pdGuard inUnit
+  by_cases h2 : 0 ≤ gamma ∧ gamma ≤ 1
+  · cases shape with
+    | none => simp [h2]
+    | some s => by_cases h3 : s = (2, 2) <;> simp [h2, h3]
+  · have : ¬ (decide (0 ≤ gamma) && decide (gamma ≤ 1)) = true := by simpa using h2
+    simp [h2, this]
+
+/-- The parameter guard of `bitflip` accepts exactly `0 ≤ prob ≤ 1` (and a `2 × 2` input when one is given). -/
+theorem bfGuard_ok_iff (prob : Rat) (shape : Option (Nat × Nat)) :
+    bfGuard prob shape = Guard.ok ↔ (0 ≤ prob ∧ prob ≤ 1) ∧ (shape = none ∨ shape = some (2, 2)) := by
+  unfold bfGuard inUnit
+  by_cases h2 : 0 ≤ prob ∧ prob ≤ 1
+  · cases shape with
+    | none => simp [h2]
+    | some s => by_cases h3 : s = (2, 2) <;> simp [h2, h3]
+  · have : ¬ (decide (0 ≤ prob) && decide (prob ≤ 1)) = true := by simpa using h2
+    simp [h2, this]
+
+/-- The guard of `pauli_channel` accepts only probability vectors (no negative entry, sum exactly one) whose length is a power
+    of four. -/
+theorem pauliGuard_ok_imp (p : List Rat) (h : pauliGuard p = Guard.ok) :
+    (∀ x ∈ p, 0 ≤ x) ∧ p.foldl (· + ·) 0 = 1 ∧ ∃ q, 4 ^ q = p.length := by
+  unfold pauliGuard at h
+  dsimp only at h
+  by_cases h1 : (p.any (· < 0)) = true
+  · rw [if_pos h1] at h; exact absurd h (by decide)
+  rw [if_neg h1] at h
+  by_cases h2 : tolOf 1 ≤ (if p.foldl (· + ·) 0 < 1 then 1 - p.foldl (· + ·) 0 else p.foldl (· + ·) 0 - 1)
+  · rw [if_pos h2] at h; exact absurd h (by decide)
+  rw [if_neg h2] at h
+  by_cases h3 : ((if p.foldl (· + ·) 0 < 1 then 1 - p.foldl (· + ·) 0 else p.foldl (· + ·) 0 - 1) != 0) = true
+  · rw [if_pos h3] at h; exact absurd h (by decide)
+  rw [if_neg h3] at h
+  have hneg : ∀ x ∈ p, 0 ≤ x := by
+    intro x hx
+    by_contra hc
+    exact h1 (List.any_eq_true.mpr ⟨x, hx, by simpa using hc⟩)
+  have hsum : p.foldl (· + ·) 0 = 1 := by
+    have h3' : (if p.foldl (· + ·) 0 < 1 then 1 - p.foldl (· + ·) 0 else p.foldl (· + ·) 0 - 1) = 0 := by
+      simpa using h3
+    split_ifs at h3' with hlt
+    · linarith
+    · linarith
+  refine ⟨hneg, hsum, ?_⟩
+  cases hq : log4? p.length with
+  | none => rw [hq] at h; exact absurd h (by decide)
+  | some q =>
+    unfold log4? at hq
+    have := List.find?_some hq
+    exact ⟨q, by simpa using this⟩
+
+end Toq.C06
+end ConstructorRanges
+
+
+/-! ## the unitarity verdict, end to end -/
+section UnitaryDecider
+open Toq.ChannelProps Toq.ChanPropSpec Toq.ChanPropProofs Matrix
+open scoped ComplexOrder
+namespace Toq.C06
+
+/-- The Choi matrix of a unitary channel on a non-trivial space has rank one and trace `d`. -/
+theorem unitary_choi_rank_trace {d : Nat} (hd : 0 < d) (Φ : LMap d d) (h : IsUnitaryChannel Φ) :
+    (choi Φ).rank = 1 ∧ (choi Φ).trace = (d : ℂ) := by
+  obtain ⟨U, hU, hJ⟩ := (unitary_iff_choi Φ).mp h
+  have htr : (choi Φ).trace = (d : ℂ) := by
+    rw [hJ, Matrix.trace_vecMulVec]
+    have e : kvec U ⬝ᵥ star (kvec U) = Matrix.trace (Uᴴ * U) := by
+      simp only [dotProduct, kvec, Pi.star_apply, Matrix.trace, Matrix.diag_apply, Matrix.mul_apply,
+        Matrix.conjTranspose_apply, Fintype.sum_prod_type]
+      refine Finset.sum_congr rfl fun i _ => Finset.sum_congr rfl fun a _ => mul_comm _ _
+    rw [e, hU, Matrix.trace_one, Fintype.card_fin]
+  refine ⟨?_, htr⟩
+  have hle : (choi Φ).rank ≤ 1 := by rw [hJ]; exact Matrix.rank_vecMulVec_le _ _
+  have hne : (choi Φ).rank ≠ 0 := by
+    intro h0
+    have := eq_zero_of_rank_eq_zero _ h0
+    rw [this, Matrix.trace_zero] at htr
+    have : (d : ℂ) ≠ 0 := Nat.cast_ne_zero.mpr hd.ne'
+    exact this htr.symm
+  omega
+
+/-- **The unitarity verdict `yes` is sound.**  If the exact matrix `J` denotes the Choi matrix of `Φ` and the verdict computed
+    from the exact rank is `yes` (rank one, Hermitian, positive trace, `Tr_out J = 1`), then `Φ(X) = U X Uᴴ` for a unitary `U`. -/
+theorem unitaryV_yes_sound (d : Nat) (J : EMat (d * d) (d * d)) (Φ : LMap d d) (h : choi Φ = toChoi J) :
+    unitaryV ⟨d, d, J⟩ (rankQ (d * d) (d * d) (ChoiForm.toQM ⟨d, d, J⟩)) = Verdict.yes → IsUnitaryChannel Φ := by
+  intro hv
+  unfold unitaryV at hv
+  simp only [bne_self_eq_false, Bool.false_eq_true, if_false] at hv
+  have hrk : rankQ (d * d) (d * d) (ChoiForm.toQM ⟨d, d, J⟩) = (choi Φ).rank := by
+    rw [h, rank_toChoi, rankQ_eq_rank]
+    exact congrArg Matrix.rank (qmToM_toQM ⟨d, d, J⟩)
+  by_cases h1 : (rankQ (d * d) (d * d) (ChoiForm.toQM ⟨d, d, J⟩) != 1) = true
+  · rw [if_pos h1] at hv; exact absurd hv (by decide)
+  rw [if_neg h1] at hv
+  cases hH : hpV J with
+  | no => rw [hH] at hv; dsimp only at hv; exact absurd hv (by decide)
+  | unknown => rw [hH] at hv; dsimp only at hv; exact absurd hv (by decide)
+  | yes =>
+    rw [hH] at hv
+    dsimp only at hv
+    by_cases h2 : (J.trace).re ≤ 0
+    · rw [if_pos h2] at hv; exact absurd hv (by decide)
+    rw [if_neg h2] at hv
+    have hr1 : (choi Φ).rank = 1 := by
+      rw [← hrk]; simpa using h1
+    have hHerm : (choi Φ).IsHermitian := by rw [h]; exact (hpV_yes_iff J).mp hH
+    have htp : IsTP Φ := by rw [tp_iff_ptrace_choi, h]; exact (tpV_yes_iff J).mp hv
+    have htr : 0 < (choi Φ).trace.re := by
+      have e : (choi Φ).trace = J.toM.trace := by
+        rw [h, toChoi_eq_submatrix]
+        simp only [Matrix.trace, Matrix.diag_apply, Matrix.submatrix_apply]
+        exact Equiv.sum_comp finProdFinEquiv (fun p => J.toM p p)
+      rw [e, ← EMat.re_trace]
+      have : (0 : Rat) < (J.trace).re := not_le.mp h2
+      exact_mod_cast this
+    obtain ⟨v, hvv⟩ := hermitian_rank_one_eq (choi Φ) hHerm hr1 htr
+    exact unitary_of_rank_one_tp Φ (Matrix.of fun a i => v (i, a)) (by rw [hvv]; rfl) htp
+
+/-- **The unitarity verdict `no` is sound** (spaces of dimension at least one): a map judged `no` — Choi rank different from one,
+    Choi matrix not Hermitian, non-positive trace, or `Tr_out J ≠ 1` — is not a unitary channel. -/
+theorem unitaryV_no_sound (d : Nat) (hd : 0 < d) (J : EMat (d * d) (d * d)) (Φ : LMap d d) (h : choi Φ = toChoi J) :
+    unitaryV ⟨d, d, J⟩ (rankQ (d * d) (d * d) (ChoiForm.toQM ⟨d, d, J⟩)) = Verdict.no → ¬ IsUnitaryChannel Φ := by
+  intro hv hU
+  obtain ⟨hr1, htrd⟩ := unitary_choi_rank_trace hd Φ hU
+  obtain ⟨hcp, htp, _⟩ := unitary_channel Φ hU
+  unfold unitaryV at hv
+  simp only [bne_self_eq_false, Bool.false_eq_true, if_false] at hv
+  have hrk : rankQ (d * d) (d * d) (ChoiForm.toQM ⟨d, d, J⟩) = (choi Φ).rank := by
+    rw [h, rank_toChoi, rankQ_eq_rank]
+    exact congrArg Matrix.rank (qmToM_toQM ⟨d, d, J⟩)
+  rw [hrk, hr1] at hv
+  simp only [bne_self_eq_false, Bool.false_eq_true, if_false] at hv
+  have hHerm : (toChoi J).IsHermitian := by rw [← h]; exact ((cp_iff_choi_psd Φ).mp hcp).isHermitian
+  have hHy : hpV J = Verdict.yes := (hpV_yes_iff J).mpr hHerm
+  rw [hHy] at hv
+  simp only at hv
+  have htr : ¬ (J.trace).re ≤ 0 := by
+    have e : (choi Φ).trace = J.toM.trace := by
+      rw [h, toChoi_eq_submatrix]
+      simp only [Matrix.trace, Matrix.diag_apply, Matrix.submatrix_apply]
+      exact Equiv.sum_comp finProdFinEquiv (fun p => J.toM p p)
+    have h1 : (((J.trace).re : Rat) : ℝ) = (d : ℝ) := by
+      rw [EMat.re_trace, ← e, htrd]; simp
+    intro hle
+    have : (((J.trace).re : Rat) : ℝ) ≤ 0 := by exact_mod_cast hle
+    rw [h1] at this
+    have : (0 : ℝ) < d := Nat.cast_pos.mpr hd
+    linarith
+  rw [if_neg htr] at hv
+  exact tpV_no_imp J hv (by rw [← h]; exact (tp_iff_ptrace_choi Φ).mp htp)
+
+end Toq.C06
+end UnitaryDecider
+
+
+/-! ## amplitude damping is extreme; `is_extremal` on the list `amplitude_damping` returns -/
+section ADExtreme
+open Toq.ChannelProps Toq.ChanPropSpec Toq.ChanPropProofs Matrix
+open scoped ComplexOrder
+namespace Toq.C06
+
+/-- **The amplitude damping channel is an extreme channel** for every damping rate `γ = s² > 0` (`s² + c² = 1`):
+    the four products `K_kᴴ K_l` of `K₀ = diag(1, c)`, `K₁ = s·E₀₁` are `diag(1, c²)`, `s·E₀₁`, `s·E₁₀`, `s²·E₁₁`. -/
+theorem amplitude_damping_extreme (sg cg : ℝ) (h : sg ^ 2 + cg ^ 2 = 1) (hs : sg ≠ 0) :
+    IsExtremeChannel (krausMap (adPair (sg : ℂ) cg)) := by
+  have h' : (sg : ℂ) ^ 2 + (cg : ℂ) ^ 2 = 1 := by exact_mod_cast h
+  have hs' : (sg : ℂ) ≠ 0 := Complex.ofReal_ne_zero.mpr hs
+  have hTP : ∑ k, (adPair (sg : ℂ) cg k)ᴴ * adPair (sg : ℂ) cg k = 1 := by
+    rw [Fin.sum_univ_two]
+    ext i j
+    fin_cases i <;> fin_cases j <;> simp [adPair, Matrix.mul_apply, Fin.sum_univ_two]
+    linear_combination h'
+  refine extreme_of_products_independent _ hTP ?_
+  rw [Fintype.linearIndependent_iff]
+  intro g hg
+  rw [Fintype.sum_prod_type, Fin.sum_univ_two, Fin.sum_univ_two, Fin.sum_univ_two] at hg
+  have e00 := congrFun (congrFun hg 0) 0
+  have e01 := congrFun (congrFun hg 0) 1
+  have e10 := congrFun (congrFun hg 1) 0
+  have e11 := congrFun (congrFun hg 1) 1
+  simp [adPair, Matrix.mul_apply, Fin.sum_univ_two] at e00 e01 e10 e11
+  have g00 : g (0, 0) = 0 := e00
+  have g01 : g (0, 1) = 0 := by
+    rcases e01 with h | h
+    · exact h
+    · exact absurd h hs
+  have g10 : g (1, 0) = 0 := by
+    rcases e10 with h | h
+    · exact h
+    · exact absurd h hs
+  have g11 : g (1, 1) = 0 := by
+    rw [g00] at e11
+    simp at e11
+    rcases e11 with h | h
+    · exact h
+    · exact absurd h hs
+  rintro ⟨a, b⟩
+  fin_cases a <;> fin_cases b <;> assumption
+
+/-- With `prob = 1` the list returned by `amplitude_damping` is `K₀, K₁` followed by two zero operators: the same map. -/
+theorem amplitude_damping_standard_eq_pair (sg cg : ℂ) :
+    krausMap (fam2 (adKraus (1 : ℂ) 0 sg cg)) = krausMap (adPair sg cg) := by
+  apply LinearMap.ext
+  intro X
+  rw [krausMap_apply', krausMap_apply', fam2_adKraus]
+  show ∑ k : Fin 4, _ = _
+  rw [Fin.sum_univ_four, Fin.sum_univ_two]
+  ext i j
+  fin_cases i <;> fin_cases j <;>
+    simp only [adPair, Matrix.add_apply, Matrix.mul_apply, Fin.sum_univ_two, Matrix.conjTranspose_apply] <;>
+    simp
+
+/-- **The known finding, for every damping amplitude.**  On the four-element list that `amplitude_damping(None, γ, 1)` itself
+    returns (two of its operators vanish) the procedure of `is_extremal` answers `false`, although the channel is extreme for every
+    `γ > 0` (`amplitude_damping_extreme`, `amplitude_damping_standard_eq_pair`). -/
+theorem amplitude_damping_list_answered_false (s c : QI) :
+    extremalAsCoded 2 2 (adKraus (1 : QI) 0 s c) = false := by
+  refine extremalAsCoded_dependent 2 2 _ (by show (4 : Nat) ≠ 1; decide) fun hLI => ?_
+  have h3 : (3 : Nat) < (adKraus (1 : QI) 0 s c).length := by show 3 < 4; decide
+  refine hLI.ne_zero ⟨3, h3⟩ ?_
+  ext a i
+  have e : (0 : QI) * s = 0 := by
+    show (⟨0 * s.re - 0 * s.im, 0 * s.im + 0 * s.re⟩ : QI) = ⟨0, 0⟩
+    simp
+  show ((m22 (0 : QI) 0 (0 * s) 0) a.val i.val).toC = 0
+  rw [e]
+  fin_cases a <;> fin_cases i <;> simp [m22, QI.toC_zero]
+
+end Toq.C06
+end ADExtreme
